@@ -47,7 +47,31 @@ class CGen:
         g.k = self.k + 100
         c1, _ = g.column(inner=True); c2, _ = g.column(inner=True)
         self.tags.add("subquery")
-        return "SELECT %s FROM %s WHERE %s = 1%s" % (c1, self.fresh("it"), c2, self.ch(["", " GROUP BY 1", " ORDER BY " + c1]))
+        return "SELECT %s FROM %s WHERE %s = 1%s" % (c1, self.fresh("it"), c2, self.ch(["", " GROUP BY 1", " ORDER BY " + c1, " ORDER BY 1", " ORDER BY 1 DESC LIMIT 1"]))
+
+    def window(self):
+        """a window function whose OVER clause partitions / orders by columns and by integer LITERALS: a literal inside OVER is
+        a constant, never a select-list position, and contributes no reference"""
+        refs = []
+        x = self.r.below(100)
+        if x < 40: fn = self.ch(["ROW_NUMBER()", "RANK()", "DENSE_RANK()"])
+        elif x < 70:
+            c, rc = self.column(); fn = "%s(%s)" % (self.ch(["SUM", "MAX", "COUNT"]), c); refs += rc
+        else:
+            c, rc = self.column(); fn = "%s(%s, %s)" % (self.ch(["LAG", "LEAD"]), c, self.ch(["1", "2"])); refs += rc
+        parts = []
+        def keys(n):
+            out = []
+            for _ in range(n):
+                if self.p(0.55):
+                    out.append(self.ch(["1", "2", "3", "10"])); self.tags.add("window:literal-key")
+                else:
+                    c, rc = self.column(); out.append(c); refs.extend(rc)
+            return out
+        if self.p(0.6): parts.append("PARTITION BY " + ", ".join(keys(self.ch([1, 1, 2]))))
+        if self.p(0.8) or not parts: parts.append("ORDER BY " + ", ".join(k + self.ch(["", " DESC", " ASC"]) for k in keys(self.ch([1, 1, 2]))))
+        self.tags.add("window")
+        return "%s OVER (%s)" % (fn, " ".join(parts)), refs
 
     def expr(self, d=0, agg_ok=True):
         x = self.r.below(100)
@@ -57,9 +81,13 @@ class CGen:
         if x < 48:
             a, ra = self.expr(d + 1, agg_ok); b, rb = self.expr(d + 1, agg_ok)
             return "%s %s %s" % (a, self.ch(["+", "-", "*"]), b), ra + rb
-        if x < 56:
+        if x < 53:
             a, ra = self.expr(d + 1, agg_ok); b, rb = self.expr(d + 1, agg_ok)
             return "%s(%s, %s)" % (self.ch(["f", "COALESCE", "concat"]), a, b), ra + rb
+        if x < 56:          # integer literals as function arguments and in CASE arms: constants
+            a, ra = self.expr(d + 1, agg_ok)
+            self.tags.add("literal:argument")
+            return self.ch(["f(%s, 1)", "SUBSTRING(%s, 1, 2)", "CASE WHEN %s > 1 THEN 2 ELSE 3 END", "COALESCE(%s, 1)", "IF(%s IN (1, 2), 1, 2)"]) % a, ra
         if x < 66 and agg_ok:
             a, ra = self.expr(d + 1, False)
             self.tags.add("aggregate:with-column")
@@ -83,12 +111,10 @@ class CGen:
             n = self.ch(["current_date", "Current_Timestamp", "current_time"])
             self.tags.add("global:lower")
             return n, []          # a dialect variable in any letter case is not a column (F-C15-3, fixed)
-        if x < 95 and self.maxdepth > 0:
+        if x < 93 and self.maxdepth > 0:
             return "(" + self.subquery(d) + ")", []
-        if x < 98:
-            a, ra = self.column(); b, rb = self.column()
-            self.tags.add("window")
-            return "ROW_NUMBER() OVER (PARTITION BY %s ORDER BY %s)" % (a, b), ra + rb
+        if x < 99:
+            return self.window()
         return self.column()
 
     def cond(self, d=0, agg_ok=False):
@@ -112,9 +138,18 @@ class CGen:
         lv = {"items": [], "join": [], "where": [], "group": [], "having": [], "order": []}
         texts = []
         n = 1 + self.r.below(4)
+        trap = self.p(0.15)          # select item 1 is a literal / a window over literals / a sub-query, and position 1 is used below
+        self.force_ord1 = trap
         for i in range(n):
             x = self.r.below(100)
-            if x < 6 and i == 0:
+            if trap and i == 0:
+                k = self.r.below(3)
+                if k == 0: t, refs = self.ch(["7", "1", "'s'"]), []
+                elif k == 1: t, refs = self.window()
+                else: t, refs = "(" + self.subquery(0) + ")", []
+                al = self.fresh("al") if self.p(0.5) else None
+                self.tags.add("item1:" + ["literal", "window", "subquery"][k])
+            elif x < 6 and i == 0:
                 t, refs, al = "*", [("col", None, "*")], None; self.tags.add("wildcard:all")
             elif x < 12:
                 t, refs, al = "t1.*", [("col", "t1", "*")], None; self.tags.add("wildcard:qualified")
@@ -146,7 +181,9 @@ class CGen:
                 t, ent = self.by_item(lv, aliases, "group"); parts.append(t); lv["group"].append(ent)
             text += " GROUP BY " + ", ".join(parts)
             if self.p(0.5):
-                if aliases and self.p(0.4):
+                if self.p(0.2):
+                    w, rw = self.window(); text += " HAVING %s > 0" % w; lv["having"] += rw; self.tags.add("having:window")
+                elif aliases and self.p(0.4):
                     a = self.ch(aliases); text += " HAVING %s > 0" % a; lv["having"] += [("col", None, a)]; self.tags.add("having:alias")
                 else:
                     c, rc = self.cond(0, agg_ok=True); text += " HAVING " + c; lv["having"] += rc
@@ -175,10 +212,19 @@ class CGen:
         if self.p(self.hive_index):
             n = self.fresh("arr"); self.tags.add("array-index-in-" + clause); lv["index_in_" + clause] = True
             return "%s[%d]" % (n, self.r.below(3)), ("refs", [("col", None, n)])
+        if getattr(self, "force_ord1", False):
+            self.force_ord1 = False; self.tags.add("ordinal")
+            return "1", ("ord", 1)
         if x < 30:
             k = 1 + self.r.below(len(lv["items"])); self.tags.add("ordinal")
             return str(k), ("ord", k)
-        if x < 60 and aliases:
+        if x < 38:          # look like positions, are expressions: no reference, no position
+            self.tags.add("by:not-a-position")
+            return self.ch(["1 + 1", "'1'", "+1", "2 * 1", "'2'", "(1 + 0)"]), ("refs", [])
+        if x < 46:
+            w, rw = self.window(); self.tags.add("by:window")
+            return w, ("refs", rw)
+        if x < 64 and aliases:
             a = self.ch(aliases); self.tags.add("alias-reference")
             return a, ("refs", [("col", None, a)])
         t, refs = self.expr(1, agg_ok=False)
